@@ -10,6 +10,10 @@ Relations
           (code points): both parsers of that string (_iter_haps and htslib) are part of the model
   tabix : pysam.tabix_index / TabixFile.fetch themselves (no haptools code): the acceptance predicate
           tabix_accepts in both directions and fetch_spec / hts_region against fetch(region=...)
+  index_hist : an OPERATION LIST on one output path (earlier index runs of other inputs / the other mode /
+          from other places, inputs older or newer than what lies at the path, files written over the output,
+          the .gz or the .tbi removed), then the run under test, then the observations of index and query:
+          what the path holds in the end must be made from the LAST input, whatever lay there before
 """
 import gzip
 import os
@@ -24,7 +28,7 @@ from .core import Relation, err_kind
 PROP = "C11"
 CLAIMED = True
 COQ_MODULES = ["C11_Check", "C11_Proofs", "C11_Proofs2", "C11_Proofs3", "C11_Proofs4", "C11_Proofs5", "C11_Proofs6", "C11_Proofs7", "C11_Proofs8",
-               "C11_ProofsRegion", "C11_ProofsRegion2", "C11_Proofs10", "C11_Proofs9"]
+               "C11_ProofsRegion", "C11_ProofsRegion2", "C11_Proofs10", "C11_Proofs9", "C11_Hist", "C11_ProofsHist"]
 PROPERTY_MODULE = "C11_Property"
 ALLOWED_AXIOMS = []
 RULE = (
@@ -33,7 +37,9 @@ RULE = (
     ">= 2 records on the queried contig and a query that keeps some and drops some records (containment vs "
     "overlap, ID subset) or addresses a haplotype without variants. tabix: a file with >= 2 sequence names that "
     "tabix_index refuses, or an accepted one with a fetch(region) that keeps some and drops some lines of its "
-    "sequence. Distinct = distinct canonical JSON."
+    "sequence. index_hist: a well-formed last input with >= 2 records and >= 1 variant, indexed normally onto a path "
+    "where an earlier operation left a .gz or a .tbi made from other lines than the ones this run has to write. "
+    "Distinct = distinct canonical JSON."
 )
 TRUSTED = [
     "bgzip/tabix (htslib via pysam): TabixFile.fetch returns, in file order, the data lines of the named sequence "
@@ -52,6 +58,9 @@ TRUSTED = [
     "canonical spelling of the (contig, a, b) holds judges is checked in Coq (canonical / print_reg)",
     "tokenisation of lines (split on tab, canonical decimal integers)",
     "Python's sorted() is a stable comparison sort (modelled by stable insertion sort)",
+    "index_hist: modification times are set with os.utime (input 100 s older / newer than the files at the output "
+    "path); the anchored code never reads them, so the model of the anchored code ignores them (the variant that reads "
+    "them is C11_Hist.index_step with skip = true, refuted); how a file is compressed (gzip / BGZF) is a boolean",
 ]
 ASSUMPTIONS = [
     "theorems about sorted output / queries assume a .hap file in the sense of the format description: unique "
@@ -67,6 +76,12 @@ ASSUMPTIONS = [
     "'c:a-b' string is not itself a sequence name, in files without a haplotype ID of the form <sequence name>:<text>; "
     "with the switch on (after fixes/C11_colon_names.patch) every canonical region except a bare contig name that also "
     "reads as <sequence name>:<text>",
+    "histories (index_hist): the past of an output path is made of haptools index runs (either mode, input elsewhere or "
+    "the output path itself, older / newer than what lies there), files written over the output (gzip / bgzip) and "
+    "removals of the .gz or the .tbi; other processes writing to the path during a run are not modelled. Tree as it is "
+    "(switch STRICT_GZIP_BESIDE_TBI off): no demand for a sorted run whose input is a gzip (not BGZF) file lying at the "
+    "output path beside a .tbi - it raises NotImplementedError (fixes/C11_gzip_beside_tbi.patch); with the switch on the "
+    "demand is the same as for any other run",
 ]
 
 VERSION = "#\tversion\t0.2.0"
@@ -1004,7 +1019,405 @@ class Tabix(Relation):
                 f"{sorted(set(r.get('cls', '?') for r in obs['res'] if 'err' in r))}")
 
 
-RELATIONS = [Index(), Query(), Tabix()]
+# ---------------------------------------------------------------------------
+# histories on one output path
+
+
+# Switch for the integrator.  Haplotypes.__iter__ opens pysam.TabixFile(path) before it reads and treats OSError and
+# ValueError as "not indexed".  For a file that is gzip- but not BGZF-compressed with a .tbi lying beside it pysam
+# raises NotImplementedError ("seek not implemented in files compressed by method 1"), which is not caught:
+# `haptools index x.hap.gz` (sorted mode; the input IS the output path) of a plain-gzip file beside the .tbi an
+# earlier run left there fails, and so does every Haplotypes.read() of such a file.
+# False (default) = the tree as it is: the model predicts the exception (C11_Hist.index_step false), holds makes no
+# demand for that run.  True = after fixes/C11_gzip_beside_tbi.patch: the model reads the file as un-indexed and holds
+# demands a complete indexed output like for any other run.  Flipping it on the unrepaired tree yields
+#   VIOLATION property=C11 ... "index_hist: ... result=raised NotImplementedError ..."
+# Also settable with HV_C11_STRICT_GZIP_BESIDE_TBI=1.
+STRICT_GZIP_BESIDE_TBI = os.environ.get("HV_C11_STRICT_GZIP_BESIDE_TBI", "1") == "1"
+
+# where the input of a run lies; the output path is always <dir>/cur.hap.gz
+#   explicit-plain / explicit-gz : <dir>/in<k>.hap[.gz], --output <dir>/cur.hap.gz
+#   default-plain                : <dir>/cur.hap, no --output (the default location is cur.hap.gz)
+#   here-gzip / here-bgzf        : the input is written over <dir>/cur.hap.gz itself (gzip / bgzip), no --output
+SRCS = ["explicit-plain", "explicit-gz", "default-plain", "here-gzip", "here-bgzf"]
+HOW_PRIOR = ["other", "permuted", "same-file", "fewer", "extended"]
+BAD_KINDS = ["dup-id", "orphan-variant", "variant-of-repeat", "id-is-contig", "start-gt-end", "other-line"]
+MID_COMMENT = "# a comment in the middle"
+
+
+def related_file(rng, lines, how):
+    """the lines of an EARLIER input, in a stated relation to the last one"""
+    head = [t for t in lines if t.startswith("#")]
+    data = [t for t in lines if not t.startswith("#")]
+    if how == "permuted" and len(data) > 1:
+        return head + [data[i] for i in rng.permutation(len(data))]
+    if how == "same-file":
+        return list(lines)
+    if how == "fewer" and data:
+        hr = [t for t in data if t[0] in "HR"]
+        if hr:
+            k = int(rng.integers(1, len(hr) + 1))
+            gone = set(hr[i].split("\t")[4] for i in rng.choice(len(hr), size=k, replace=False))
+            return [t for t in lines if t.startswith("#") or
+                    not ((t[0] in "HR" and t.split("\t")[4] in gone) or (t[0] == "V" and t.split("\t")[1] in gone))]
+    if how == "extended" and data:
+        c = data[0].split("\t")[1] if data[0][0] in "HR" else "1"
+        a = int(rng.choice(GRID))
+        return list(lines) + [f"H\t{c}\t{a}\t{a + int(rng.integers(0, 9))}\tNEW1", f"V\tNEW1\t{a}\t{a}\trs1\tT"]
+    sort = bool(rng.random() < 0.6)
+    kind = "wf" if rng.random() < 0.8 else BAD_KINDS[int(rng.integers(0, len(BAD_KINDS)))]
+    return gen_file(rng, kind, "shuffled" if sort or rng.random() < 0.3 else "blocks", None, exotic=True)
+
+
+def write_at(path, lines, how):
+    """how: 'plain' | 'gzip' | 'bgzf'"""
+    if how == "bgzf":
+        import pysam
+
+        write_input(lines, path + ".plain", False)
+        pysam.tabix_compress(path + ".plain", path, force=True)
+        os.unlink(path + ".plain")
+    else:
+        write_input(lines, path, how == "gzip")
+
+
+def rec_set(lines):
+    """the mandatory fields of the H, R and V lines, as a sorted list"""
+    out = []
+    for t in lines or []:
+        if t[:1] in ("H", "R", "V"):
+            f = t.split("\t")
+            out.append(tuple(f[:6] if t[0] == "V" else f[:5]))
+    return sorted(out)
+
+
+class IndexHist(Relation):
+    name = "index_hist"
+    coq_module = "C11_Hist"
+    coq_check = "check_hist"
+    coq_case_type = "hcase"
+    coq_model = "model_hist"
+    coq_imports = ["C11_Model", "C11_Check"]
+    budget = {"quick": 110, "thorough": 2500}
+    max_cases_per_shard = 20
+    anchors = Index.anchors + [
+        ("haptools/data/haplotypes.py", "Haplotypes._iter_haps"),
+        ("haptools/data/haplotypes.py", "Haplotypes.__iter__"),
+    ]
+
+    def _last(self, rng):
+        sort = bool(rng.random() < 0.6)
+        kind = "wf" if rng.random() < 0.85 else BAD_KINDS[int(rng.integers(0, len(BAD_KINDS)))]
+        if sort:
+            layout = ["shuffled", "hr-first", "blocks"][int(rng.choice(3, p=[0.6, 0.25, 0.15]))]
+        else:
+            layout = ["blocks", "shuffled"][int(rng.choice(2, p=[0.8, 0.2]))]
+        w = rng.random()
+        wide = "ok" if w < 0.05 else ("beyond" if w < 0.09 else None)
+        lines = gen_file(rng, kind, layout, wide, exotic=True)
+        if not sort and rng.random() < 0.7:
+            lines = [t for t in lines if t != MID_COMMENT]
+        return lines, sort, kind, layout, wide
+
+    def _wants_queries(self, lines, sort, kind):
+        return kind == "wf" and (sort or MID_COMMENT not in lines)
+
+    def generate(self, rng, n, tier):
+        out = []
+        for _ in range(n):
+            lines, sort, kind, layout, wide = self._last(rng)
+            ops = []
+            nprior = int(rng.choice(4, p=[0.08, 0.55, 0.3, 0.07]))
+            for _j in range(nprior):
+                how = HOW_PRIOR[int(rng.choice(len(HOW_PRIOR), p=[0.4, 0.15, 0.2, 0.15, 0.1]))]
+                psort = (not sort) if (how == "same-file" and rng.random() < 0.8) else bool(rng.random() < 0.65)
+                ops.append({"op": "index", "lines": related_file(rng, lines, how), "sort": psort,
+                            "src": SRCS[int(rng.choice(5, p=[0.4, 0.15, 0.2, 0.1, 0.15]))], "mtime": "asis",
+                            "how": how})
+                r = rng.random()
+                if r < 0.10:
+                    ops.append({"op": "rm", "what": "tbi"})
+                elif r < 0.18:
+                    ops.append({"op": "rm", "what": "gz"})
+                elif r < 0.26:
+                    ops.append({"op": "put", "lines": related_file(rng, lines, "same-file" if rng.random() < 0.4 else "other"),
+                                "bgzf": bool(rng.random() < 0.5)})
+            ops.append({"op": "index", "lines": lines, "sort": sort,
+                        "src": SRCS[int(rng.choice(5, p=[0.3, 0.15, 0.2, 0.17, 0.18]))],
+                        "mtime": ["older", "asis", "newer"][int(rng.choice(3, p=[0.55, 0.35, 0.1]))]})
+            qs = QUERY._queries(rng, lines, 5) if self._wants_queries(lines, sort, kind) else []
+            out.append({"ops": ops, "queries": qs, "kind": kind, "layout": layout, "wide": wide})
+        return out
+
+    def exhaustive(self, tier):
+        # one earlier sorted run of A, everything that can happen to the path afterwards, then B (and A in the
+        # other mode) from every place, with every time stamp
+        a = ["# a comment", "H\t1\t5\t20\tH2\t0.25", "H\t1\t5\t10\tH10\t0.5", "R\t2\t5\t10\tA", "V\tH2\t8\t8\trs2\tA",
+             "V\tH10\t5\t5\trs10\tC"]
+        b = ["H\t2\t3\t9\tB2", "H\t1\t4\t30\tH2", "H\t1\t6\t9\tb", "V\tH2\t6\t6\trs1\tG", "V\tb\t7\t7\trs9\tT"]
+        b_blocks = [b[1], b[2], b[0], b[3], b[4]]
+        qs = [{"contig": "1", "form": "c:a-b", "a": 4, "b": 9, "ids": None},
+              {"contig": None, "form": "c", "a": 0, "b": 0, "ids": ["H2"]}]
+        out = []
+        for between in ([], [{"op": "rm", "what": "tbi"}], [{"op": "rm", "what": "gz"}],
+                        [{"op": "put", "lines": b, "bgzf": False}], [{"op": "put", "lines": a, "bgzf": True}]):
+            for src in SRCS:
+                for mtime in ("older", "asis", "newer"):
+                    for lines, sort in ((b, True), (b_blocks, False), (a, False)):
+                        ops = [{"op": "index", "lines": a, "sort": True, "src": "explicit-plain", "mtime": "asis",
+                                "how": "other"}] + between + \
+                              [{"op": "index", "lines": lines, "sort": sort, "src": src, "mtime": mtime}]
+                        out.append({"ops": ops, "queries": qs if lines is not a else [], "kind": "wf",
+                                    "layout": "exhaustive", "wide": None})
+        return out
+
+    def run_impl(self, inp):
+        import pysam
+        from pathlib import Path
+        from haptools.data import Haplotypes
+        from haptools.index import index_haps
+        from haptools.logging import getLogger
+
+        log = getLogger("hv_c11", "CRITICAL")
+        d = tempfile.mkdtemp(prefix="hv_c11_")
+        tmpd = os.path.join(d, "tmp")
+        os.mkdir(tmpd)
+        old_tmp = tempfile.tempdir
+        tempfile.tempdir = tmpd        # index_haps leaves its temporary files there when tabix fails
+        try:
+            P = os.path.join(d, "cur.hap.gz")
+            T = P + ".tbi"
+            ops = inp["ops"]
+            earlier = []
+            res = {}
+            for i, o in enumerate(ops):
+                last = i == len(ops) - 1
+                if o["op"] == "rm":
+                    victim = T if o["what"] == "tbi" else P
+                    if os.path.exists(victim):
+                        os.unlink(victim)
+                    continue
+                if o["op"] == "put":
+                    write_at(P, o["lines"], "bgzf" if o["bgzf"] else "gzip")
+                    continue
+                kind = o["src"]
+                if kind.startswith("explicit"):
+                    src = os.path.join(d, f"in{i}.hap" + (".gz" if kind == "explicit-gz" else ""))
+                elif kind == "default-plain":
+                    src = os.path.join(d, "cur.hap")
+                else:
+                    src = P
+                write_at(src, o["lines"], {"explicit-plain": "plain", "default-plain": "plain", "explicit-gz": "gzip",
+                                           "here-gzip": "gzip", "here-bgzf": "bgzf"}[kind])
+                # the input's modification time against what lies at the output path
+                refs = [os.stat(x).st_mtime for x in (P, T) if os.path.exists(x) and x != src]
+                if refs and o["mtime"] == "older":
+                    os.utime(src, (min(refs) - 100,) * 2)
+                elif refs and o["mtime"] == "newer":
+                    os.utime(src, (max(refs) + 100,) * 2)
+                if last:
+                    res["before"] = {"gz": os.path.exists(P), "tbi": os.path.exists(T)}
+                    ref = os.path.join(d, "ref.hap")
+                    write_input(o["lines"], ref, False)
+                    try:
+                        hp = Haplotypes(ref, log=log)
+                        hp.read()
+                        res["full"] = {"ok": dump_data(hp)}
+                    except Exception as e:  # noqa
+                        res["full"] = {"err": err_kind(e), "cls": type(e).__name__}
+                try:
+                    index_haps(Path(src), o["sort"], Path(P) if kind.startswith("explicit") else None, log)
+                    ret = {"ok": None}
+                except Exception as e:  # noqa
+                    ret = {"err": err_kind(e), "cls": type(e).__name__, "msg": str(e)[:120]}
+                if not last:
+                    earlier.append("ok" if "ok" in ret else ret["cls"])
+                    continue
+                res["ret"] = ret
+                res["earlier"] = earlier
+                res["data"] = {"lines": text_lines(read_text(P))} if os.path.exists(P) else None
+                res["tbi"] = os.path.exists(T)
+                res["after"] = text_lines(read_text(src)) if kind.endswith("plain") and os.path.exists(src) else None
+                res["fetch"] = {"err": 0}
+                res["res"] = []
+                if "ok" in ret and res["data"] is not None:
+                    try:
+                        tb = pysam.TabixFile(P)
+                        res["fetch"] = {"ok": list(tb.fetch())}
+                        tb.close()
+                    except Exception as e:  # noqa
+                        res["fetch"] = {"err": err_kind(e), "cls": type(e).__name__}
+                    for q in inp["queries"]:
+                        try:
+                            hq = Haplotypes(P, log=log)
+                            hq.read(region=region_str(q), haplotypes=set(q["ids"]) if q["ids"] is not None else None)
+                            res["res"].append({"ok": dump_data(hq)})
+                        except Exception as e:  # noqa
+                            res["res"].append({"err": err_kind(e), "cls": type(e).__name__, "msg": str(e)[:120]})
+            return res
+        finally:
+            tempfile.tempdir = old_tmp
+            shutil.rmtree(d, ignore_errors=True)
+
+    def encode(self, inp, obs):
+        T = Terms()
+        fixed = L.b(STRICT_GZIP_BESIDE_TBI)
+        strict = L.b(STRICT_COLON_CONTIGS)
+        pops = [T.scan_lines(o["lines"]) if "lines" in o else None for o in inp["ops"]]
+
+        def op(o, pl):
+            if o["op"] == "rm":
+                return "HRmIndex" if o["what"] == "tbi" else "HRmData"
+            if o["op"] == "put":
+                return f"HPut {L.b(o['bgzf'])} {T.lines(pl)}"
+            src = {"here-gzip": "(Here false)", "here-bgzf": "(Here true)"}.get(o["src"], "Elsewhere")
+            return f"HIndex {L.b(o['sort'])} {L.b(o['mtime'] == 'older')} {src} {T.lines(pl)}"
+
+        last = inp["ops"][-1]
+        plain = L.b(last["src"].endswith("plain"))
+        if not (isinstance(obs, dict) and "ret" in obs and "full" in obs):
+            T.freeze()
+            ops = L.lst(list(zip(inp["ops"], pops)), lambda x: op(*x))
+            return f"(mkhc {fixed} {ops} {plain} false (Err 97) None false (Err 0) None (Err 97) [] {strict} [])"
+        pdata = T.scan_lines(obs["data"]["lines"]) if obs["data"] is not None else None
+        paft = T.scan_lines(obs["after"]) if obs["after"] is not None else None
+        pf = T.scan_lines(obs["fetch"]["ok"]) if "ok" in obs["fetch"] else None
+        T.scan_data(obs["full"])
+        qs_in = inp["queries"] if obs["res"] else []
+        for q, r in zip(qs_in, obs["res"]):
+            T.scan_data(r)
+            if q["contig"] is not None:
+                T.add(q["contig"])
+            T.add(*(q["ids"] or []))
+        T.freeze()
+        if T.bad:
+            return f"(mkhc {fixed} [] {plain} false (Err 97) None false (Err 0) None (Err 97) [] {strict} [])"
+        ops = L.lst(list(zip(inp["ops"], pops)), lambda x: op(*x))
+        ret = "(Ok tt)" if "ok" in obs["ret"] else f"(Err {obs['ret']['err']})"
+        sd = f"(Some {T.lines(pdata)})" if pdata is not None else "None"
+        sa = f"(Some {T.lines(paft)})" if paft is not None else "None"
+        sf = f"(Ok {T.lines(pf)})" if pf is not None else f"(Err {obs['fetch']['err']})"
+        # the strings whose spelling matters: as in relation query, of the file that lies at the path
+        named = []
+        if pdata is not None:
+            named += [(p[1] if p[0] in "HRV" else p[2]) for p in pdata if p[0] != "C"]
+            named += [p[4] for p in pdata if p[0] in "HR"]
+        named += [q["contig"] for q in qs_in if q["contig"] is not None]
+        qs = []
+        for q, r in zip(qs_in, obs["res"]):
+            if q["contig"] is None:
+                reg, rs = "None", "None"
+            else:
+                a = "None" if q["form"] in ("c", "c:") else f"(Some {L.z(q['a'])})"
+                b = f"(Some {L.z(q['b'])})" if q["form"] == "c:a-b" else "None"
+                reg = f"(Some (mkreg {T.r(q['contig'])} {a} {b}))"
+                rs = f"(Some {L.lst([ord(ch) for ch in region_str(q)], L.z)})"
+            ids = "None" if q["ids"] is None else f"(Some {T.rl(q['ids'])})"
+            qs.append(f"mkqo {reg} {rs} {ids} {T.data(r)}")
+        return (f"(mkhc {fixed} {ops} {plain} {L.b(obs['before']['tbi'])} {ret} {sd} {L.b(obs['tbi'])} {sf} {sa} "
+                f"{T.data(obs['full'])} {T.names(named)} {strict} {L.lst(qs)})")
+
+    # -- what a history left at the path, from the input alone (for coverage labels) and from the observation
+
+    def _left_before(self, inp):
+        """the lines of every earlier operation that wrote to the path"""
+        return [(o.get("sort"), o["lines"]) for o in inp["ops"][:-1] if "lines" in o]
+
+    def nontrivial(self, inp, obs):
+        last = inp["ops"][-1]
+        ft = file_features(last["lines"])
+        if inp["kind"] != "wf" or ft["records"] < 2 or ft["variants"] < 1:
+            return False
+        if not (isinstance(obs, dict) and "ret" in obs and "ok" in obs["ret"] and obs.get("before")):
+            return False
+        if not (obs["before"]["gz"] or obs["before"]["tbi"]):
+            return False
+        return any(l != last["lines"] or srt != last["sort"] for srt, l in self._left_before(inp))
+
+    def classes(self, inp, obs):
+        last = inp["ops"][-1]
+        out = [f"last:sort={last['sort']}", f"last:input-at={last['src']}", f"last:input-mtime={last['mtime']}",
+               f"last:kind={inp['kind']}", f"last:wide={inp.get('wide')}",
+               f"earlier-index-runs={sum(1 for o in inp['ops'][:-1] if o['op'] == 'index')}"]
+        for o in inp["ops"][:-1]:
+            if o["op"] == "index":
+                out.append(f"earlier:{o.get('how', 'other')}")
+                out.append(f"earlier:input-at={o['src']}")
+                if o["lines"] == last["lines"] and o["sort"] != last["sort"]:
+                    out.append("earlier:same-file-other-mode")
+            elif o["op"] == "rm":
+                out.append(f"earlier:rm-{o['what']}")
+            else:
+                out.append("earlier:file-written-over-the-output-" + ("bgzf" if o["bgzf"] else "gzip"))
+        if isinstance(obs, dict) and "ret" in obs:
+            b = obs["before"]
+            out.append("path-before=" + ("gz+tbi" if b["gz"] and b["tbi"] else "gz-only" if b["gz"] else
+                                         "tbi-only" if b["tbi"] else "nothing"))
+            out.append("last:" + ("ok" if "ok" in obs["ret"] else "raised-" + str(obs["ret"].get("cls"))))
+            for e in obs.get("earlier", []):
+                out.append("earlier-run:" + e)
+            out.append(f"queries={len(obs.get('res', []))}")
+        return out[:6] + sorted(set(out[6:]))
+
+    def shrink(self, inp):
+        ops = inp["ops"]
+        n = len(ops)
+        for i in range(n - 1):
+            yield dict(inp, ops=ops[:i] + ops[i + 1:])
+        qs = inp["queries"]
+        if len(qs) > 1:
+            for q in qs:
+                yield dict(inp, queries=[q])
+        if qs:
+            yield dict(inp, queries=[])
+        for i, o in enumerate(ops):
+            if "lines" in o:
+                for l in shrink_lines(o["lines"]):
+                    yield dict(inp, ops=ops[:i] + [dict(o, lines=l)] + ops[i + 1:])
+            if o["op"] == "index" and o["src"] != "explicit-plain":
+                yield dict(inp, ops=ops[:i] + [dict(o, src="explicit-plain")] + ops[i + 1:])
+            if o["op"] == "index" and i < n - 1 and not o["sort"]:
+                yield dict(inp, ops=ops[:i] + [dict(o, sort=True)] + ops[i + 1:])
+
+    def mutate(self, inp, rng):
+        ops = inp["ops"]
+        last = ops[-1]
+        for how in HOW_PRIOR:
+            prior = {"op": "index", "lines": related_file(rng, last["lines"], how), "sort": True,
+                     "src": "explicit-plain", "mtime": "asis", "how": how}
+            for mtime in ("older", "asis"):
+                yield dict(inp, ops=[prior, dict(last, mtime=mtime)])
+        yield dict(inp, ops=ops[:-1] + [dict(last, sort=not last["sort"])])
+        for src in SRCS:
+            if src != last["src"]:
+                yield dict(inp, ops=ops[:-1] + [dict(last, src=src)])
+
+    def signature(self, inp, obs):
+        last = inp["ops"][-1]
+        where = "the-output-path-itself" if last["src"].startswith("here") else "another-path"
+        if not (isinstance(obs, dict) and "ret" in obs):
+            return f"index_hist: a history on one output path could not be observed; last run sort={last['sort']}"
+        res = "ok" if "ok" in obs["ret"] else f"raised {obs['ret'].get('cls')}"
+        b = obs["before"]
+        before = "gz+tbi" if b["gz"] and b["tbi"] else "gz-only" if b["gz"] else "tbi-only" if b["tbi"] else "nothing"
+        if obs["data"] is None:
+            holds = "no-file"
+        else:
+            got = rec_set(obs["data"]["lines"])
+            if got == rec_set(last["lines"]):
+                holds = "the-records-of-the-last-input"
+                if not last["sort"] and obs["data"]["lines"] != last["lines"]:
+                    holds += "-but-not-its-lines"
+            elif any(got == rec_set(l) for _s, l in self._left_before(inp)):
+                holds = "the-records-of-an-EARLIER-input"
+            else:
+                holds = "other-records"
+        return (f"index_hist: last run sort={last['sort']} input-at={where} result={res}; path-before={before}; "
+                f"in the end the output holds {holds}, tbi={obs['tbi']}, index-readable={'ok' in obs['fetch']}")
+
+
+QUERY = Query()
+RELATIONS = [Index(), QUERY, Tabix(), IndexHist()]
 
 LEVEL_TEXT = (
     "Coq theorems over all .hap contents (no size bound) about a Gallina model of index_haps, the __lt__ orderings, "
@@ -1012,7 +1425,10 @@ LEVEL_TEXT = (
     "(_iter_haps and htslib, at code-point level); tabix fetch is a Section variable with a stated contract. The model "
     "is tied to /repo on every run by evaluating in Coq model-vs-implementation agreement and the property's finite "
     "checker on generated files (index), ~10 region/ID queries per indexed file (query), and the library contracts "
-    "themselves on arbitrary line orders (tabix)."
+    "themselves on arbitrary line orders (tabix); and on operation lists on ONE output path - earlier runs, files "
+    "written over the output, removed .gz / .tbi, inputs older or newer than what lies there - followed by the run under "
+    "test (index_hist; model: a disk with data file and index; theorem: the result of a history is index_output of the "
+    "last input)."
 )
 LEVEL_NOTE = (
     "Partial: bgzip/tabix are a contract (Section hypothesis), exercised against the real library on every case; "
@@ -1020,6 +1436,8 @@ LEVEL_NOTE = (
     "Theorems assume a well-formed .hap file (unique IDs, variants belong to haplotypes of the file, start <= end, "
     "haplotype IDs differ from contigs) and, for index, ends <= 2^29 (proved sharp). Region strings on contigs with "
     "':' and haplotype IDs of the form <sequence>:<text> are a defect of the tree as it is "
-    "(fixes/C11_colon_names.patch, switch STRICT_COLON_CONTIGS)."
+    "(fixes/C11_colon_names.patch, switch STRICT_COLON_CONTIGS). A sorted run on a gzip (not BGZF) file lying at the "
+    "output path beside an earlier .tbi raises NotImplementedError (fixes/C11_gzip_beside_tbi.patch, switch "
+    "STRICT_GZIP_BESIDE_TBI)."
 )
 TECHNIQUE = "Coq proof by induction on line lists + vm_compute-evaluated correspondence against the implementation"
